@@ -239,8 +239,9 @@ def make_source(seed: int = 0):
 
 
 def writer2(detector, **kwargs) -> None:
-    """Like writer, plus 'scene' (adds a source), 'data' (adds a processed-data array) and
-    'pixel+' (adds to the pixel array in place instead of assigning)."""
+    """Like writer, plus 'scene' (adds a source), 'data' (adds a processed-data array),
+    'pixel+' (adds to the pixel array in place instead of assigning) and 'clusters' (adds charge
+    through the cluster interface)."""
     import xarray as xr
     seed = kwargs.get("seed", 0)
     step = int(detector.pipeline_count)
@@ -250,13 +251,25 @@ def writer2(detector, **kwargs) -> None:
     keep(detector)
     ev.update(clock(detector))
     emit(ev)
-    rest = [n for n in names if n not in ("scene", "data", "pixel+")]
+    rest = [n for n in names if n not in ("scene", "data", "pixel+", "clusters")]
     _do_write(detector, rest, seed, kwargs.get("dtypes") or {}, step)
     if "scene" in names:
         detector.scene.add_source(make_source(seed * 1000 + step))
     if "data" in names:
         arr = gen_array(detector.geometry.shape, "float64", (seed, step, 9))
         detector.data[f"/probe/step{step}"] = xr.DataArray(arr, dims=["y", "x"])
+    if "clusters" in names:
+        # charge through the cluster interface (as the cosmic-ray models do), inside the sensitive area
+        rows, cols = detector.geometry.shape
+        rng = np.random.default_rng([seed, step, 77])
+        n = 2
+        detector.charge.add_charge(
+            particle_type="e", particles_per_cluster=rng.integers(1, 50, n).astype(float),
+            init_energy=np.zeros(n),
+            init_ver_position=rng.random(n) * rows * detector.geometry.pixel_vert_size,
+            init_hor_position=rng.random(n) * cols * detector.geometry.pixel_horz_size,
+            init_z_position=np.zeros(n), init_ver_velocity=np.zeros(n), init_hor_velocity=np.zeros(n),
+            init_z_velocity=np.zeros(n))
     if "pixel+" in names:
         arr = gen_array(detector.geometry.shape, "float64", (seed, step, 3))
         try:
